@@ -463,6 +463,22 @@ def break_case(case):
     return {"script": script, "status": t["status"], "exc": t.get("exc"), "expect_reject": idx < 16}
 
 
+HELPER_ONLY = [
+    # the monitor / a device is used ONLY from helper functions: its one-time configuration still belongs to setup()
+    "mon = SerialMonitor(9600)\ndef say():\n    mon.write(\"hi\")\n    return 1\nq = say()\n",
+    "mon = SerialMonitor(115200)\ndef tick(n):\n    mon.write(n)\n    return n + 1\ncount = 0\nwhile True:\n    count = tick(count)\n    sleep(5)\n",
+    "led = Led(13)\nmon = SerialMonitor(9600)\ndef blink_once():\n    led.toggle()\n    mon.write(\"t\")\n\nwhile True:\n    blink_once()\n    sleep(10)\n",
+    "mon = SerialMonitor(9600)\nsv = Servo(9)\ndef park():\n    sv.write(10)\n    return 0\ndef log(v):\n    mon.write(v)\n    return v\nz = park()\nwhile True:\n    z = log(z + 1)\n    sleep(5)\n",
+]
+
+
+def helper_only_case(case):
+    idx, = case
+    script = HDR + HELPER_ONLY[idx]
+    r = engine.differential(script, passes=3)
+    return {"script": script, "outcome": r["outcome"], "divergence": r.get("divergence"), "diag": r.get("diag"), "cpp": r.get("cpp")}
+
+
 def main() -> int:
     rep = Report(PROP)
     t = tier()
@@ -508,6 +524,16 @@ def main() -> int:
             rep.violation(f"`break` at main-loop level was not rejected ({res['status']})", {"script.py": res["script"]}, key="break-main-loop")
         if not res["expect_reject"] and res["status"] != "ok":
             rep.violation(f"`break` inside an inner loop of the main loop was rejected: {res['exc']}", {"script.py": res["script"]}, key="break-inner")
+    for case, st, res in run_cases(helper_only_case, [(i,) for i in range(len(HELPER_ONLY))]):
+        if st != "ok":
+            rep.inconclusive_because(f"helper-only case {case} failed: {res[-200:]}")
+            continue
+        rep.case("helper-only:" + str(case[0]), res["outcome"] == "equal")
+        rep.count("helper_only_cases:" + res["outcome"])
+        if res["outcome"] in ("diverged", "uncompilable", "fw-crash", "fw-hang"):
+            d = res.get("divergence") or {}
+            rep.violation(f"device used only from helper functions: {res['outcome']} {d.get('why') or res.get('diag')} fw={d.get('fw')} py={d.get('py')}",
+                          {"script.py": res["script"], "sketch.cpp": res.get("cpp") or ""}, key="helper-only")
     witness.check_witnesses(rep)
     rep.rule = ("scripts with/without `while True:`, 2-6 devices of every kind declared before the loop or (hoistable kinds) at the top of its body, serial monitor "
                 "declared before or after the other devices, every statement carrying a unique serial marker or a device action, counters crossing passes; each "
